@@ -94,6 +94,7 @@ def make_session_class():
             self._closing = SEvent(); self._sock = sock
             self.parser = DefaultXMLParser(self)
             self._connected = True
+            self._server_capabilities = Capabilities(['urn:ietf:params:netconf:base:1.0', 'urn:ietf:params:netconf:base:1.1'])
             self._q.qname = 'q'; self._notification_q.qname = 'nq'
             self._S = sched.S
         @property
@@ -175,6 +176,7 @@ class Scenario:
         from ncclient.transport.session import NotificationHandler
         from ncclient.operations.rpc import RPCReplyListener, RaiseMode
         from ncclient.operations.retrieve import Get
+        from ncclient.operations.edit import Commit
         spec = self.spec
         S = sched.S = Sched(decisions=self.decisions, seed=self.seed, eager_timeouts=bool(spec.get('eager')), rng_after=self.rng_after)
         install()
@@ -259,6 +261,14 @@ class Scenario:
                         if rpc is not None:
                             rq.done(rpc)
                         r = rpc = None                            # a completed / timed-out call leaves no handle behind
+                    elif op[0] == 'refused':
+                        # an operation the library refuses locally (the server did not advertise :candidate): it must
+                        # leave nothing behind on the session
+                        try:
+                            Commit(ses, dh, raise_mode=RaiseMode.NONE).request()
+                            outcomes[key] = ('refused-not',)
+                        except Exception as e:
+                            outcomes[key] = ('refused', type(e).__name__)
                     elif op[0] == 'await_disc':
                         S.point('await', enabled=lambda: not ses._connected)
                     elif op[0] == 'close':
